@@ -257,7 +257,15 @@ func load(cfg *Config) (*ssa.Program, *ssa.Package, error) {
 }
 
 // findRedirects scans harness sources for  //verif:redirect <full function name> <harness func>
+// and  //verif:use <import path>  (also take the redirects declared by that package's harness files).
 func findRedirects(sh *Shared, pkg *ssa.Package) {
+	if sh.redirSeen == nil {
+		sh.redirSeen = map[string]bool{}
+	}
+	if sh.redirSeen[pkg.Pkg.Path()] {
+		return
+	}
+	sh.redirSeen[pkg.Pkg.Path()] = true
 	rel := strings.TrimPrefix(pkg.Pkg.Path(), "github.com/chrislusf/seaweedfs/")
 	dir := filepath.Join(sh.cfg.HarnessDir, rel)
 	ents, _ := os.ReadDir(dir)
@@ -268,6 +276,18 @@ func findRedirects(sh *Shared, pkg *ssa.Package) {
 		}
 		for _, line := range strings.Split(string(b), "\n") {
 			line = strings.TrimSpace(line)
+			if strings.HasPrefix(line, "//verif:use ") {
+				if f := strings.Fields(line); len(f) == 2 {
+					other := pkg.Prog.ImportedPackage(f[1])
+					if other == nil {
+						fmt.Fprintln(os.Stderr, "verif:use package not loaded:", f[1])
+						os.Exit(2)
+					}
+					other.Build()
+					findRedirects(sh, other)
+				}
+				continue
+			}
 			if !strings.HasPrefix(line, "//verif:redirect ") {
 				continue
 			}
